@@ -4,7 +4,8 @@ in order, take it from the named source cart, from the empty cart, or keep what 
 Carts are abstract here: a cart is a function from section to its content. -/
 namespace Pico.Build
 
-inductive Sec | lua | gfx | gff | map | sfx | music
+/-- the six sections `build` can take from sources, and the label, which it never touches -/
+inductive Sec | lua | gfx | gff | map | sfx | music | label
   deriving DecidableEq, Repr
 
 def secs : List Sec := [.lua, .gfx, .gff, .map, .sfx, .music]
